@@ -1,3 +1,3 @@
 #!/bin/sh
 # replays this counterexample against the real build
-cd /tmp/dbg_x && VERIF_SCRIPT=/verif/replays/C19/VHarnessRestoreDense_c1a02f17_0/script.json VERIF_RAW_SALT=0 GOFLAGS=-mod=mod GOPROXY=off go test -vet=off -count=1 -overlay /verif/replays/C19/VHarnessRestoreDense_c1a02f17_0/overlay.json -run ^TestVerifReplay_VHarnessRestoreDense$ -v ./wallet
+cd /tmp/seedrepo_C19c && VERIF_SCRIPT=/verif/replays/C19/VHarnessRestoreDense_c1a02f17_0/script.json VERIF_RAW_SALT=0 GOFLAGS=-mod=mod GOPROXY=off go test -vet=off -count=1 -overlay /verif/replays/C19/VHarnessRestoreDense_c1a02f17_0/overlay.json -run ^TestVerifReplay_VHarnessRestoreDense$ -v ./wallet
